@@ -31,10 +31,20 @@ opts
                      standard security handler, /V 1 /R 2 (40 bit) or /V 2 /R 3 /Length 128; strings and streams are
                      RC4-encrypted with the per-object key (Algorithm 1). AES-128 / AES-256 -> NotImplementedError
                      (neither `cryptography` nor `pycryptodome` is installed, pypdf cannot write them either).
+                     optional key "crypt_filter": {"name": "StdCF", "cfm": "V2" | "AESV2" | "AESV3"} (absent: output as before)
+                     writes the crypt-filter form of the standard security handler instead: /CF << /<name> << /CFM /<cfm>
+                     /AuthEvent /DocOpen /Length n >> >> /StmF /<name> /StrF /<name>; the filter name is free (ISO 32000-1
+                     7.6.5: /StmF and /StrF reference it).  "V2" / "AESV2": /V 4 /R 4 /Length 128 ("algorithm" must be
+                     "RC4-128": 128-bit file key, Algorithm 2); AESV2 = AES-128-CBC, per-object key with the "sAlT"
+                     suffix (Algorithm 1), 16-byte IV in front, PKCS#7 padding.  "AESV3": /V 5 /R 5 /Length 256 (Adobe
+                     extension level 3: SHA-256 based /U /O /UE /OE /Perms), AES-256-CBC with the file key itself.
+                     AES comes from the independent reference verif.ref.aes; IVs, salts and the V5 file key are
+                     derived from the file identifier and the object number, so the bytes are a function of the input.
 """
 from __future__ import annotations
 
 import hashlib
+import re
 import struct
 
 CAPS_PDF = frozenset({
@@ -172,9 +182,30 @@ def _user_value(key: bytes, id0: bytes, rev: int) -> bytes:                 # Al
     return v + b"\x00" * 16
 
 
-def _object_key(key: bytes, num: int, gen: int = 0) -> bytes:               # Algorithm 1
-    h = hashlib.md5(key + struct.pack("<I", num)[:3] + struct.pack("<H", gen)).digest()
+def _object_key(key: bytes, num: int, gen: int = 0, aes: bool = False) -> bytes:               # Algorithm 1
+    h = hashlib.md5(key + struct.pack("<I", num)[:3] + struct.pack("<H", gen) + (b"sAlT" if aes else b"")).digest()
     return h[:min(len(key) + 5, 16)]
+
+
+def _aes_cbc_pkcs7(key: bytes, iv: bytes, data: bytes) -> bytes:           # 7.6.2: IV, then the CBC blocks of the padded data
+    from verif.ref import aes
+    pad = 16 - len(data) % 16
+    return iv + aes.cbc_encrypt(key, iv, data + bytes([pad]) * pad)
+
+
+def _v5_values(user: str, owner: str, perms: int, id0: bytes):
+    """/V 5 /R 5 (Adobe extension level 3): -> (file key, /U, /O, (/UE, /OE, /Perms)); salts and key derived from id0"""
+    from verif.ref import aes
+    up, op = user.encode("utf-8")[:127], (owner or user).encode("utf-8")[:127]
+    fkey = hashlib.sha256(b"verif-v5-key" + id0).digest()
+    salt = hashlib.sha256(b"verif-v5-salt" + id0).digest()
+    uvs, uks, ovs, oks = salt[0:8], salt[8:16], salt[16:24], salt[24:32]
+    u = hashlib.sha256(up + uvs).digest() + uvs + uks
+    ue = aes.cbc_encrypt(hashlib.sha256(up + uks).digest(), bytes(16), fkey)
+    o = hashlib.sha256(op + ovs + u).digest() + ovs + oks
+    oe = aes.cbc_encrypt(hashlib.sha256(op + oks + u).digest(), bytes(16), fkey)
+    pblock = struct.pack("<I", perms & 0xFFFFFFFF) + b"\xff\xff\xff\xff" + b"Tadb" + salt[28:32]
+    return fkey, u, o, (ue, oe, aes.ecb_encrypt(fkey, pblock))
 
 
 # ----------------------------------------------------------------------------------------------------------------------
@@ -215,6 +246,7 @@ def pdf(doc, images=None, opts=None) -> bytes:
             raise NotImplementedError("meta key %r cannot be expressed in the PDF /Info dictionary by this writer" % k)
 
     rev = n = perms = 0
+    cf = cf_name = cfm = None
     if enc is not None:
         alg = enc.get("algorithm", "RC4-128")
         if alg == "RC4-40":
@@ -226,6 +258,16 @@ def pdf(doc, images=None, opts=None) -> bytes:
         else:
             raise ValueError("unknown encryption algorithm %r" % (alg,))
         perms = int(enc.get("permissions", -4))
+        cf = enc.get("crypt_filter")
+        if cf is not None:
+            cf_name, cfm = str(cf.get("name", "StdCF")), cf.get("cfm", "AESV2")
+            if cfm not in ("V2", "AESV2", "AESV3"):
+                raise ValueError("unknown crypt filter method %r" % (cfm,))
+            if cfm != "AESV3" and alg != "RC4-128":
+                raise ValueError("a /V 4 crypt filter needs the 128-bit key derivation (algorithm RC4-128)")
+            if not cf_name or any(c in cf_name for c in " /()<>[]{}%#") or not cf_name.isascii():
+                raise NotImplementedError("crypt filter name %r needs name escapes" % (cf_name,))
+            rev = 5 if cfm == "AESV3" else 4
 
     # objects: list of (dict_body: bytes, stream: bytes | None, strings: list[(placeholder, raw)] )
     objs = [None, None, None]            # 1 catalog, 2 pages, 3 font (filled below)
@@ -345,35 +387,54 @@ def pdf(doc, images=None, opts=None) -> bytes:
     enc_no = 0
     if enc is not None:
         user, owner = enc.get("user", ""), enc.get("owner", "")
-        ov = _owner_value(owner, user, rev, n)
-        key = _file_key(user, ov, perms, id0, rev, n)
-        uv = _user_value(key, id0, rev)
+        if rev == 5:
+            key, uv, ov, v5 = _v5_values(user, owner, perms, id0)
+        else:
+            ov = _owner_value(owner, user, rev, n)
+            key = _file_key(user, ov, perms, id0, rev, n)
+            uv = _user_value(key, id0, rev)
         enc_no = len(objs) + 1            # the encryption dictionary itself is never encrypted
+
+    def crypt(i, okey, raw):
+        if cfm in ("AESV2", "AESV3"):
+            return _aes_cbc_pkcs7(okey, hashlib.md5(b"verif-iv" + id0 + struct.pack("<II", i, len(raw)) + raw[:16]).digest(), raw)
+        return _rc4(okey, raw)
 
     out = bytearray(b"%PDF-1.4\n%\xe2\xe3\xcf\xd3\n")
     offsets = []
     for i, (body, stream, strings) in enumerate(objs, 1):
-        okey = _object_key(key, i) if key is not None else None
+        okey = None
+        if key is not None:
+            okey = key if cfm == "AESV3" else _object_key(key, i, 0, cfm == "AESV2")
         for ph, raw in strings:
             if okey is not None:
-                body = body.replace(ph, b"<" + _rc4(okey, raw).hex().encode("ascii") + b">")
+                body = body.replace(ph, b"<" + crypt(i, okey, raw).hex().encode("ascii") + b">")
             elif raw[:2] == b"\xfe\xff":
                 body = body.replace(ph, b"<" + raw.hex().encode("ascii") + b">")
             else:
                 body = body.replace(ph, _lit(raw))
+        if stream is not None and okey is not None:
+            stream = crypt(i, okey, stream)
+            if cf is not None:
+                m = re.search(rb"/Length \d+ >>$", body)      # block ciphers change the stream length
+                body = body[:m.start()] + b"/Length %d >>" % len(stream)
         offsets.append(len(out))
         out += b"%d 0 obj\n" % i + body
         if stream is not None:
-            if okey is not None:
-                stream = _rc4(okey, stream)
             out += b"\nstream\n" + stream + b"\nendstream"
         out += b"\nendobj\n"
     if enc is not None:
         offsets.append(len(out))
         if rev == 2:
             head = b"/Filter /Standard /V 1 /R 2"
-        else:
+        elif cf is None:
             head = b"/Filter /Standard /V 2 /R 3 /Length 128"
+        else:
+            nm = cf_name.encode("ascii")
+            head = (b"/Filter /Standard /V %d /R %d /Length %d /CF << /%s << /CFM /%s /AuthEvent /DocOpen /Length %d >> >> /StmF /%s /StrF /%s"
+                    % (((5, 5, 256) if rev == 5 else (4, 4, 128)) + (nm, cfm.encode("ascii"), 32 if rev == 5 else 16, nm, nm)))
+            if rev == 5:
+                head += b" /UE <%s> /OE <%s> /Perms <%s>" % tuple(x.hex().encode("ascii") for x in v5)
         out += (b"%d 0 obj\n<< %s /O <%s> /U <%s> /P %d >>\nendobj\n"
                 % (enc_no, head, ov.hex().encode("ascii"), uv.hex().encode("ascii"), perms))
     total = len(offsets) + 1
